@@ -19,17 +19,17 @@ ASSUMPTIONS = [
     "arr[i:j] on the supplied array is modelled as an uninterpreted sequence slice (start, stop recorded)",
     "run_worker: pytables file = stub reporting a symbolic row count; pool.map contract = every task once, results in task order; "
     "SeedSequence.spawn(k) contract = k fresh distinct child keys",
-    "bounds: n_batches <= 12 (quick) / <= 32 (thorough); n_tasks and start_idx unbounded; run_worker: n_prior_samples in 1..8, len(samples_idx) <= 6",
+    "bounds: n_batches <= 12 (quick) / <= 64 (thorough); n_tasks and start_idx unbounded; run_worker: n_prior_samples in 1..8, len(samples_idx) <= 6",
 ]
 
 
 def bounds(tier):
-    return {"n_batches": [1, 12 if tier == "quick" else 32], "n_tasks": "unbounded >= 1", "start_idx": "unbounded >= 0",
+    return {"n_batches": [1, 12 if tier == "quick" else 64], "n_tasks": "unbounded >= 1", "start_idx": "unbounded >= 0",
             "run_worker": {"pool.size": [0, 4], "n_batches": "None or 1..5", "n_prior_samples": "None or 1..8 (symbolic)", "len(samples_idx)": [1, 6]}}
 
 
 def shapes(tier):
-    nb_max = 12 if tier == "quick" else 32
+    nb_max = 12 if tier == "quick" else 64
     out = []
     for nb in range(1, nb_max + 1):
         for mode in ("idx", "arr"):
